@@ -7,8 +7,8 @@
      fam  : reference classification of a coding name, case-insensitive, as listed in the statement:
             "id" (identity or no header), "gz" gzip, "zl" deflate, "br", "zs" zstd, "x" anything else
      rd   : id of the reference decoding of a body under a coding (0: the reference rejects it / fam = "x")
-   A message state is  st = [ce (header value, "-" if absent), fam, raw, rawlen, cl (-1: absent / not a number),
-                             te (a Transfer-Encoding header is present), rd].
+   A message state is  st = [ce (header value, "-" if absent), fam, raw, empty (raw is b""), rawlen,
+                             cl (-1: absent / not a number), te (a Transfer-Encoding header is present), rd].
    f-prefixed fields (fexc, fres, frd, fst) are the same call made on a copy with a pristine codec cache: the
    property says no result depends on what was encoded or decoded earlier.
    Event records:
@@ -22,7 +22,7 @@
 EXTENDS Verif
 CONSTANTS NMsg
 
-NoSt == [ce |-> "-", fam |-> "id", raw |-> 0, rawlen |-> 0, cl |-> 0, te |-> FALSE, rd |-> 0]
+NoSt == [ce |-> "-", fam |-> "id", raw |-> 0, empty |-> FALSE, rawlen |-> 0, cl |-> 0, te |-> FALSE, rd |-> 0]
 MonInit == [bad |-> <<>>, wit |-> {},
             last  |-> [i \in 1..NMsg |-> NoSt],   \* last observed state of message i
             known |-> [i \in 1..NMsg |-> 0],      \* id of the content message i must have (0: nothing is owed)
@@ -88,6 +88,8 @@ MonStep(m, ev) ==
          [m1 EXCEPT !.last[ev.m] = ev.st,
                     !.known[ev.m] = IF Ok(ev) THEN ev.arg ELSE 0, !.how[ev.m] = "set",
                     !.wit = @ \cup W(Ok(ev) /\ ev.st.fam \notin {"id", "x"}, "set_coded")
+                              \cup W(Ok(ev) /\ ev.st.fam \notin {"id", "x"} /\ ev.st.rd = ev.arg /\ ev.st.rd # 0 /\ ev.arg = 1,
+                                     "set_empty_content_coded")
                               \cup W(Ok(ev) /\ m.last[ev.m].fam = "x", "set_unknown_coding")
                               \cup W(Ok(ev) /\ ev.st.raw # ev.fst.raw /\ ev.st.rd = ev.fst.rd, "set_served_from_cache")
                               \cup W(~Ok(ev), "set_raised")]
@@ -95,12 +97,13 @@ MonStep(m, ev) ==
          [m1 EXCEPT !.known[ev.m] = IF Ok(ev) /\ ev.strict THEN ev.res ELSE @,
                     !.how[ev.m] = IF Ok(ev) /\ ev.strict /\ m.known[ev.m] = 0 THEN "get" ELSE @,
                     !.lenient = @ \cup (IF Ok(ev) /\ m.last[ev.m].fam \notin {"id", "x"} /\ m.last[ev.m].rd # ev.res
-                                           /\ ev.res # m.last[ev.m].raw
+                                           /\ (ev.strict \/ ev.res # m.last[ev.m].raw \/ m.last[ev.m].empty)
                                         THEN {m.last[ev.m].raw} ELSE {}),
                     !.wit = @ \cup W(m.known[ev.m] # 0 /\ m.last[ev.m].fam # "x", "readback_" \o m.how[ev.m])
                               \cup W(~Ok(ev), "get_raised")
-                              \cup W(Ok(ev) /\ m.last[ev.m].fam \notin {"id", "x"} /\ m.last[ev.m].rd # ev.res /\ ev.res # m.last[ev.m].raw,
-                                "lenient_decode")]
+                              \cup W(Ok(ev) /\ m.last[ev.m].fam \notin {"id", "x"} /\ m.last[ev.m].rd # ev.res
+                                     /\ (ev.strict \/ ev.res # m.last[ev.m].raw \/ m.last[ev.m].empty), "lenient_decode")
+                              \cup W(Ok(ev) /\ m.last[ev.m].empty /\ m.last[ev.m].fam \notin {"id", "x"}, "get_empty_coded_body")]
     [] ev.k = "mdec" ->
          [m1 EXCEPT !.last[ev.m] = ev.st, !.how[ev.m] = IF m.known[ev.m] # 0 THEN "mdec" ELSE @,
                     !.lenient = @ \cup (IF Ok(ev) /\ m.last[ev.m].fam \notin {"id", "x"} /\ Plain(ev.st)
